@@ -1,12 +1,141 @@
-//! loom thread-locals and lazy statics used by the STAT family (filled in later).
-use crate::ir::Res;
+//! loom thread-locals and lazy statics used by the STAT family (C17, also C13/C16).
+//!
+//! Every initialiser / destructor leaves a note (kind, key, thread) in the iteration record:
+//!   10 tls init, 11 tls drop, 12 try_with inside a destructor (b = 1 if AccessError),
+//!   13 privacy check (b = 1 if the value read back belongs to another thread),
+//!   20 lazy init, 21 lazy drop, 22 lazy address (b = address)
+//! The running loom thread is identified through hook H2 (`fingerprint()[2]`), which works in
+//! initialisers and destructors alike.
 
-pub fn tls_with(_loomop: bool, _k: usize) -> Res {
-    unimplemented!("STAT family")
+use crate::ir::Res;
+use crate::subject::note;
+
+fn me() -> u64 {
+    loom::verif::fingerprint()[2] as u64
 }
-pub fn tls_nested(_f1: bool, _k: usize, _f2: bool, _k2: usize) -> Res {
-    unimplemented!("STAT family")
+
+pub struct TlsVal {
+    key: usize,
+    flavour: bool,
+    owner: u64,
 }
-pub fn lazy_get(_loomop: bool, _k: usize) -> Res {
-    unimplemented!("STAT family")
+
+impl TlsVal {
+    fn new(key: usize, flavour: bool) -> TlsVal {
+        let owner = me();
+        note(10, (key + if flavour { 2 } else { 0 }) as u64, owner);
+        if flavour {
+            loom::thread::yield_now();
+        }
+        TlsVal { key, flavour, owner }
+    }
+}
+
+impl Drop for TlsVal {
+    fn drop(&mut self) {
+        let k = (self.key + if self.flavour { 2 } else { 0 }) as u64;
+        // thread + 100 * (number of ops completed so far): lets the oracle order the destructor
+        // after the owning thread's last op
+        note(11, k, me() + 100 * crate::subject::hist_len());
+        if self.flavour {
+            loom::thread::yield_now();
+        }
+        // a key of this thread that is already destroyed must report AccessError
+        let r = match (self.flavour, self.key) {
+            (false, 0) => TLS_P0.try_with(|_| ()),
+            (false, _) => TLS_P1.try_with(|_| ()),
+            (true, 0) => TLS_L0.try_with(|_| ()),
+            (true, _) => TLS_L1.try_with(|_| ()),
+        };
+        note(12, k, r.is_err() as u64);
+    }
+}
+
+loom::thread_local! {
+    static TLS_P0: TlsVal = TlsVal::new(0, false);
+    static TLS_P1: TlsVal = TlsVal::new(1, false);
+    static TLS_L0: TlsVal = TlsVal::new(0, true);
+    static TLS_L1: TlsVal = TlsVal::new(1, true);
+}
+
+fn tls_inits(k: u64, th: u64) -> usize {
+    crate::subject::count_notes(10, k, th)
+}
+
+fn with_key<R>(flavour: bool, k: usize, f: impl FnOnce(&TlsVal) -> R) -> R {
+    match (flavour, k) {
+        (false, 0) => TLS_P0.with(f),
+        (false, _) => TLS_P1.with(f),
+        (true, 0) => TLS_L0.with(f),
+        (true, _) => TLS_L1.with(f),
+    }
+}
+
+pub fn tls_with(flavour: bool, k: usize) -> Res {
+    let id = (k + if flavour { 2 } else { 0 }) as u64;
+    let th = me();
+    let before = tls_inits(id, th);
+    with_key(flavour, k, |v| note(13, id, (v.owner != th) as u64));
+    let after = tls_inits(id, th);
+    Res::V((after > before) as u64)
+}
+
+pub fn tls_nested(f1: bool, k: usize, f2: bool, k2: usize) -> Res {
+    let (id1, id2) = ((k + if f1 { 2 } else { 0 }) as u64, (k2 + if f2 { 2 } else { 0 }) as u64);
+    let th = me();
+    let (b1, b2) = (tls_inits(id1, th), tls_inits(id2, th));
+    with_key(f1, k, |v| {
+        note(13, id1, (v.owner != th) as u64);
+        with_key(f2, k2, |w| note(13, id2, (w.owner != th) as u64));
+    });
+    let (a1, a2) = (tls_inits(id1, th), tls_inits(id2, th));
+    Res::V((a1 > b1) as u64 * 2 + (a2 > b2) as u64)
+}
+
+pub struct LzVal {
+    key: usize,
+    flavour: bool,
+    cell: loom::cell::UnsafeCell<u64>,
+}
+
+impl LzVal {
+    fn new(key: usize, flavour: bool) -> LzVal {
+        let k = (key + if flavour { 2 } else { 0 }) as u64;
+        note(20, k, me());
+        let cell = loom::cell::UnsafeCell::new(0);
+        if flavour {
+            loom::thread::yield_now();
+        }
+        cell.with_mut(|p| unsafe { *p = 1 });
+        LzVal { key, flavour, cell }
+    }
+}
+
+impl Drop for LzVal {
+    fn drop(&mut self) {
+        note(21, (self.key + if self.flavour { 2 } else { 0 }) as u64, 0);
+    }
+}
+
+loom::lazy_static! {
+    static ref LZ_P0: LzVal = LzVal::new(0, false);
+    static ref LZ_P1: LzVal = LzVal::new(1, false);
+    static ref LZ_L0: LzVal = LzVal::new(0, true);
+    static ref LZ_L1: LzVal = LzVal::new(1, true);
+}
+
+pub fn lazy_get(flavour: bool, k: usize) -> Res {
+    let id = (k + if flavour { 2 } else { 0 }) as u64;
+    let before = crate::subject::count_notes_kind(20, id);
+    let v: &LzVal = match (flavour, k) {
+        (false, 0) => &LZ_P0,
+        (false, _) => &LZ_P1,
+        (true, 0) => &LZ_L0,
+        (true, _) => &LZ_L1,
+    };
+    note(22, id, v as *const LzVal as u64);
+    // the initialiser's write to the cell must happen-before this read
+    v.cell.with(|p| unsafe { std::ptr::read_volatile(p) });
+    let after = crate::subject::count_notes_kind(20, id);
+    Res::V((after > before) as u64)
 }
